@@ -242,6 +242,10 @@ def parse_opts(lines):
         if m:
             res.append(('top', m.group(1)))
             continue
+        m = re.match(r'bottom\s*<<<(.*)>>>\s*$', s, re.S)
+        if m:
+            res.append(('bottom', m.group(1)))
+            continue
         m = re.match(r'destructure\s*<<<(.*)>>>\s*$', s, re.S)
         if m:
             res.append(('destructure', m.group(1)))
@@ -319,6 +323,29 @@ def transform_body(body, opts, log, lost):
         elif o[0] == 'top':
             splices.append((body.index('{') + 1, '\n' + o[1].strip('\n') + '\n'))
             log.append(('T7', 'ghost text spliced at start of body'))
+        elif o[0] == 'bottom':
+            # before the trailing expression of the body, or before its closing brace
+            end = len(clean.rstrip()) - 1          # index of the closing '}'
+            k = end - 1
+            depth = 0
+            pos = None
+            while k > 0:
+                ch = clean[k]
+                if ch in ')]}':
+                    if ch == '}' and depth == 0:
+                        pos = k + 1
+                        break
+                    depth += 1
+                elif ch in '([{':
+                    depth -= 1
+                elif ch == ';' and depth == 0:
+                    pos = k + 1
+                    break
+                k -= 1
+            if pos is None:
+                pos = body.index('{') + 1
+            splices.append((pos, '\n' + o[1].strip('\n') + '\n'))
+            log.append(('T7', 'ghost text spliced before the end of the body'))
         elif o[0] == 'destructure':
             splices.append((body.index('{') + 1, '\n' + o[1].strip('\n') + '\n'))
             log.append(('T5', 'tuple-pattern parameter moved into the body: ' + o[1].strip()))
